@@ -30,6 +30,7 @@ var propConfigs = map[string]*propConfig{
 	"C18": {replay: replayC18, undecided: "real interleavings and data races (timer field read/written without a common lock): contracts cover every sequence of Success/Fail/Proceed/expiry calls and the timer-fires-before-assignment schedule, not arbitrary intra-call interleavings"},
 	"C19": {replay: replayC18, undecided: "that time.AfterFunc fires after exactly the armed delay (A-TIMER); counts, order, armed delay and reset on progress are proved"},
 	"C14": {extra: sweepBrokerWrites, undecided: "that the broker's TCP connection is closed on every session end (close is in run's deferred function, outside the step contracts); only what is written before the close is decided"},
+	"C24": {extra: sweepSendScope, undecided: "byte-level serialisation of the packet (paho's Write, trusted A-PAHO); UTF-8 well-formedness and the U+0000 ban of MQTT strings; validity of predefined topic names from the configuration (A-CFG)"},
 	"C27": {undecided: "which of several matching callbacks is invoked (the property does not ask)"},
 	"C29": {undecided: "real interleavings: atomicity is derived from the proved lock coverage plus A-MUTEX / A-ATOMICPKG, not explored"},
 }
@@ -151,6 +152,11 @@ func (pc *propConfig) run(prop string, g *G, idx funcIndex, cs *contractSet, out
 		all = append(all, ob...)
 		for _, a := range as {
 			assumes[a] = true
+		}
+	}
+	for _, a := range cs.assumptions {
+		if hasTag(a.Tags, prop) {
+			assumes[a.Text] = true
 		}
 	}
 	sort.SliceStable(all, func(i, j int) bool { return all[i].Name < all[j].Name })
